@@ -633,6 +633,12 @@ func (r *rctx) forStmt(s *S) {
 		r.line("\tbreak")
 		r.line("}")
 		r.ind--
+	case "3ca": // the init clause ASSIGNS to a variable declared before the loop (holding another value)
+		r.line("%s := 7", v)
+		r.line("for %s = 0; %s < %d; %s++ {", v, v, bound, v)
+		r.ind++
+		r.line("tr.U(%s)", v)
+		r.ind--
 	case "3cb": // three clauses, counted and tape-steered
 		r.line("for %s := 0; %s < %d && tr.B(%d); %s++ {", v, v, bound+1, s.ID*10, v)
 	default: // 3c: three clauses, counted; the counter is advanced by the post statement or, if the post yields, in the body
@@ -851,6 +857,7 @@ func enumStmt(n int, emit func(*S)) {
 		emit(&S{K: "for", Form: "inf", A: a})
 		emit(&S{K: "for", Form: "3cn", A: a, N: 1})
 		emit(&S{K: "for", Form: "nip", A: a})
+		emit(&S{K: "for", Form: "3ca", A: a, N: 2})
 		emit(&S{K: "for", Form: "3c", Post: "yield", A: a, N: 2})
 		emit(&S{K: "switch", Form: "tag", Cases: [][]*S{a}})
 		emit(&S{K: "switch", Form: "tagless", Cases: [][]*S{a}, Def: true})
@@ -1042,7 +1049,7 @@ func (g *rgen) stmt(depth int, c wctx) *S {
 		}
 		return s
 	case r < 94:
-		s := &S{K: "for", Form: g.pick([]string{"3c", "3c", "3cb", "cond", "inf", "3cn", "nip", "3c2"}), N: 1 + g.rng.Intn(3)}
+		s := &S{K: "for", Form: g.pick([]string{"3c", "3c", "3cb", "cond", "inf", "3cn", "nip", "3c2", "3ca"}), N: 1 + g.rng.Intn(3)}
 		if s.Form == "3c" {
 			s.Post = g.pick([]string{"inc", "inc", "inc", "yield", "eff"})
 			if g.rng.Intn(6) == 0 {
